@@ -1,7 +1,7 @@
 (* C16 / C18 / C20: properties of the checker model (Model/Check.v). *)
 From Coq Require Import Lia Permutation.
 From NS Require Import Check Hover SyntaxInd.
-From NS Require Tables.
+From NS Require Tables Typing.
 
 (* ---- the severity of every diagnostic kind is the one the code declares (regenerated table) ---- *)
 Definition all_kinds : list diag_kind :=
@@ -23,6 +23,10 @@ Proof. destruct k1, k2; cbn; intros H; try discriminate; reflexivity. Qed.
 
 (* the built-in table of the model is the one of the code *)
 Definition ctx_name (c : fn_context) : string := match c with CtxStatement => "statement" | CtxOrigin => "origin" end.
+(* the implementation's table, the specification's and the model's are the same *)
+Lemma builtins_spec_ok : Tables.builtins = Typing.spec_builtins /\ Tables.allowed_types = Typing.spec_allowed_types.
+Proof. split; reflexivity. Qed.
+
 Lemma builtins_table_ok : Tables.builtins = map (fun b => (b_name b, ctx_name (b_ctx b), b_params b, b_return b)) builtins_table.
 Proof. reflexivity. Qed.
 Lemma allowed_types_ok : Tables.allowed_types = allowed_types.
